@@ -9,7 +9,10 @@ open Mitum Mitum.Signed
 def stepC28 (ts : List String) : String :=
   match ts with
   | ["det", kind, field] =>
-    if field == "signer" || field == "signature" || field == "signedAt" || field == "signNode" || field == "hash" || field == "opHash" || field == "stage" then "1"
+    -- the order of a hashed list: the elements are concatenated in their order, so a rotation is a change of the field
+    if field == "signs[order]" then boolStr Gen.C28.operationHashReadsSignsInOrder
+    else if field.endsWith "[order]" then boolStr (detects Gen.C28.kinds kind (field.dropRight 7))
+    else if field == "signer" || field == "signature" || field == "signedAt" || field == "signNode" || field == "hash" || field == "opHash" || field == "stage" then "1"
     else boolStr (detects Gen.C28.kinds kind field)
   | ["relabel", _] => boolStr Gen.C28.ballotFactHashCoversKind
   | ["shift", _] => "0"
